@@ -68,6 +68,7 @@ func c13Schedules(s Src, base sim.Config, n int, nranges int, fresh bool) []Run 
 	rev.Pid = 7
 	rev.HeapBias = 1100 << 20
 	rev.RandSeed = 99
+	rev.SchedSeed, rev.SchedQuantum, rev.ClockTickUs, rev.ReadDelayMs = 12345, 1, 1000, 3000
 	rev.Env = map[string]string{"HOME": "/x", "TZ": "Asia/Dhaka"}
 	runs = append(runs, Run{Role: "reverse", Cfg: rev})
 	for i := 2; i < n; i++ {
@@ -78,6 +79,7 @@ func c13Schedules(s Src, base sim.Config, n int, nranges int, fresh bool) []Run 
 		c.RandSeed = int64(s.Int("randseed", 0, 1000))
 		c.HeapBias = Pick(s, "heapbias", []uint64{0, 0, 64 << 20, 900 << 20, 1100 << 20, 5 << 30})
 		c.Pid = s.Int("pid", 0, 30000)
+		c = drawSched(s, c, true) // (inert on a tree without goroutines and timers)
 		if Bool(s, "env") {
 			c.Env = map[string]string{"HOME": "/home/u" + fmt.Sprint(s.Int("envn", 0, 9)), "LANG": "bn_BD.UTF-8"}
 		}
